@@ -9,6 +9,13 @@ package main
 // object/thread.go only the recovering functions and the array limits are listed.
 // Keys never contain line numbers: "<pkg>.<Func>#<ordinal>: <expression text>".
 //
+// Native nesting (Model 4c): the declared types of the VM's arrays (`frames`, `stack`) and,
+// for every function of vm/ that calls `….eval(` the
+// activate… call that precedes it (which frame it claims).
+// Mutexes (Model 4d): for every function of importer/, vm/, compiler/ and the root package
+// the calls of Lock / Unlock / RLock / RUnlock / TryLock it contains, in source order, with
+// `defer` marked.
+//
 // E5: every `c.emit(op.X, …)` call site of the compiler with the number of operands it
 // passes, and the operand count op/op.go registers for each opcode constant.
 
@@ -207,6 +214,122 @@ func c03_genC03(repo string) string {
 		panic("MaxStackDepth/MaxFrameDepth not found as integer literals in vm/")
 	}
 
+	// ---- native nesting: array field types, frame index sites, re-entries of eval
+	var vmArrays, evalReentries []string
+	for _, cf := range c03Parse(fset, repo, "vm", "vm") {
+		ast.Inspect(cf.file, func(n ast.Node) bool {
+			ts, ok := n.(*ast.TypeSpec)
+			if !ok || ts.Name.Name != "VirtualMachine" {
+				return true
+			}
+			if st, ok := ts.Type.(*ast.StructType); ok {
+				for _, f := range st.Fields.List {
+					for _, nm := range f.Names {
+						if nm.Name == "frames" || nm.Name == "stack" {
+							vmArrays = append(vmArrays, nm.Name+": "+c03Src(fset, f.Type))
+						}
+					}
+				}
+			}
+			return false
+		})
+		for _, d := range cf.file.Decls {
+			fd, ok := d.(*ast.FuncDecl)
+			if !ok || fd.Body == nil {
+				continue
+			}
+			key := c03_funcKey(cf.pkg, fd)
+			type callAt struct {
+				pos  token.Pos
+				text string
+			}
+			var activates []callAt
+			var evals []token.Pos
+			ast.Inspect(fd.Body, func(n ast.Node) bool {
+				switch x := n.(type) {
+				case *ast.CallExpr:
+					if sel, ok := x.Fun.(*ast.SelectorExpr); ok {
+						switch sel.Sel.Name {
+						case "activateCode", "activateFunction":
+							arg := ""
+							if len(x.Args) > 0 {
+								arg = c03Src(fset, x.Args[0])
+							}
+							activates = append(activates, callAt{x.Pos(), sel.Sel.Name + "(" + arg + ", …)"})
+						case "eval":
+							evals = append(evals, x.Pos())
+						}
+					}
+				}
+				return true
+			})
+			for _, ep := range evals {
+				claim := "NO activate… call before it"
+				for _, a := range activates {
+					if a.pos < ep {
+						claim = a.text
+					}
+				}
+				evalReentries = append(evalReentries, fmt.Sprintf("%s: %s then eval", key, claim))
+			}
+		}
+	}
+	sort.Strings(vmArrays)
+	sort.Strings(evalReentries)
+	if len(vmArrays) != 2 {
+		panic("fields frames / stack of vm.VirtualMachine not found")
+	}
+	if len(evalReentries) == 0 {
+		panic("no call of eval found in vm/: the extractor no longer recognises the re-entries")
+	}
+
+	// ---- mutex operations per function (source order)
+	type muFn struct {
+		key string
+		ops [][3]string // receiver expression, method, "true"/"false" (deferred)
+	}
+	var mutexOps []muFn
+	muFiles := append([]c03File{}, c03Parse(fset, repo, "importer", "importer")...)
+	muFiles = append(muFiles, c03Parse(fset, repo, "vm", "vm")...)
+	for _, cf := range files {
+		if cf.pkg == "compiler" || cf.pkg == "risor" {
+			muFiles = append(muFiles, cf)
+		}
+	}
+	for _, cf := range muFiles {
+		for _, d := range cf.file.Decls {
+			fd, ok := d.(*ast.FuncDecl)
+			if !ok || fd.Body == nil {
+				continue
+			}
+			deferred := map[*ast.CallExpr]bool{}
+			ast.Inspect(fd.Body, func(n ast.Node) bool {
+				if ds, ok := n.(*ast.DeferStmt); ok {
+					deferred[ds.Call] = true
+				}
+				return true
+			})
+			var ops [][3]string
+			ast.Inspect(fd.Body, func(n ast.Node) bool {
+				call, ok := n.(*ast.CallExpr)
+				if !ok {
+					return true
+				}
+				if sel, ok := call.Fun.(*ast.SelectorExpr); ok && len(call.Args) == 0 {
+					switch sel.Sel.Name {
+					case "Lock", "Unlock", "RLock", "RUnlock", "TryLock", "TryRLock":
+						ops = append(ops, [3]string{c03Src(fset, sel.X), sel.Sel.Name, strconv.FormatBool(deferred[call])})
+					}
+				}
+				return true
+			})
+			if len(ops) > 0 {
+				mutexOps = append(mutexOps, muFn{c03_funcKey(cf.pkg, fd), ops})
+			}
+		}
+	}
+	sort.Slice(mutexOps, func(i, j int) bool { return mutexOps[i].key < mutexOps[j].key })
+
 	// ---- E5: op table + emit sites
 	opf, err := parser.ParseFile(fset, repo+"/op/op.go", nil, 0)
 	if err != nil {
@@ -365,6 +488,21 @@ func c03_genC03(repo string) string {
 	sb.WriteString(c03_leanStrList("frontRecovers", "functions of those packages that call recover()", frontRecovers))
 	sb.WriteString(c03_leanStrList("vmRecovers", "functions of vm/ and object/thread.go that call recover()", vmRecovers))
 	sb.WriteString(c03_leanStrList("parserAdvanceLoops", "for-loops of parser/ (function#ordinal of the loop in the function, condition) whose body calls `p.nextToken()` as a statement, its result dropped, with the number of such calls directly in the loop (not in nested loops)", advLoops))
+	sb.WriteString(c03_leanStrList("vmArrays", "declared types of the fields `frames` and `stack` of vm.VirtualMachine", vmArrays))
+	sb.WriteString(c03_leanStrList("evalReentries", "every call of `….eval(` in vm/ with the activateCode / activateFunction call (first argument = the frame index it claims) that precedes it in its function", evalReentries))
+	sb.WriteString("/-- functions of importer/, vm/, compiler/ and the root package that call Lock / Unlock / RLock / RUnlock / TryLock on anything, with those calls in source order: (receiver expression, method, is it the call of a `defer` statement) -/\ndef mutexOps : List (String × List (String × String × Bool)) := [\n")
+	for i, m := range mutexOps {
+		sep := ","
+		if i == len(mutexOps)-1 {
+			sep = ""
+		}
+		var parts []string
+		for _, o := range m.ops {
+			parts = append(parts, fmt.Sprintf("(%s, %s, %s)", strconv.Quote(o[0]), strconv.Quote(o[1]), o[2]))
+		}
+		fmt.Fprintf(&sb, "  (%s, [%s])%s\n", strconv.Quote(m.key), strings.Join(parts, ", "), sep)
+	}
+	sb.WriteString("]\n\n")
 	fmt.Fprintf(&sb, "def maxStackDepth : Nat := %d\ndef maxFrameDepth : Nat := %d\n\n", limits["MaxStackDepth"], limits["MaxFrameDepth"])
 	var names []string
 	for k := range opCount {
